@@ -162,7 +162,7 @@ PROPS = {
         units=[U("c12_sched", "c12_sched.cpp", variant="plain", extra_srcs=["vsched.cpp"], flags=["-I{REPO}/src/fitter"], exclude_objs=["cholesky_solve.o"],
                  repo_srcs=[("src/fitter/cholesky_solve.c", ["-Dpthread_create=vs_create", "-Dpthread_join=vs_join", "-Dpthread_mutex_lock=vs_lock", "-Dpthread_mutex_unlock=vs_unlock",
                                                             "-Dpthread_cond_wait=vs_cond_wait", "-Dpthread_cond_broadcast=vs_broadcast", "-Dpthread_exit=vs_exit", "-Dsched_setaffinity=vs_setaffinity"])],
-                 quick=64, thorough=64, names=["sched_dfs", "sched_pct"], leaks=False, no_isolate_rerun=True),
+                 quick=64, thorough=32, names=["sched_dfs", "sched_pct"], leaks=False, no_isolate_rerun=True),
                U("c12_tsan", "c12_tsan.cpp", variant="tsan", kind="tsan", flags=["-I{REPO}/src/fitter"], quick=192, thorough=3200, names=["tsan_fits", "tsan_nnls", "tsan_linesearch"], leaks=False, no_isolate_rerun=True, workers=dict(quick=4, thorough=8), timeout=dict(quick=420, thorough=3 * 3600))],
         rule="a case = one line-search problem (1..6 unknowns, 0..6 infeasible components => 2..8 trial steps, 1..4 workers) and a set of schedules: sched_dfs enumerates the tree of "
              "choice sequences (budget 2500 leaves quick / 450000 thorough; 'exhaustive_tree' when the tree was finished), sched_pct runs 300 (3000) PCT/random schedules. evaluations "
